@@ -101,6 +101,16 @@ def run(ctx):
         "(oracle_floatspec_absorbed)",
     ]
     ctx.lean(props=["Props.C18"], drivers=["drv_c18"])
+    ctx.modelled.append(
+        "translator tie: the loop-free functions of xmath/geom (Rect Empty Right Bottom corners CenterX/Y Contains "
+        "Intersects Intersect Union Expand Inset, Point.In, Insets Width/Height, Matrix constructors Translate Scale "
+        "Multiply TransformPoint and the Point/Size/Insets arithmetic) are regenerated from the typed SSA form of the "
+        "working tree on every run (gossa/ssagen geom, lean/Generated/SSA_Geom.lean) as definitions over an abstract "
+        "coordinate type with exactly the operations the Go body uses (exact operations: overflow and float rounding are "
+        "outside the C18 theorems) and proved equal to the functions of Model/Geom.lean for every such type "
+        "(lean/Props/C18Gen.lean); trusted here: golang.org/x/tools/go/ssa and the translation in gossa/main.go")
+    from vlib import gentie
+    gentie.run(ctx, target="geom", generated="SSA_Geom.lean", module="Props.C18Gen", key="geom", namespace="C18Gen")
     ctx.harness("./cmd/c18")
     tg = lambda l, o: " ".join(l.split()[:2])
     th = "C18.%s (model = specification); impl != model on this input"
